@@ -75,7 +75,7 @@ def one(job):
         for q in mx.quic:
             conn = q["conn"]
             rows = e2e.flow_packets(merged, conn.cip, conn.cport, conn.sip, 17)
-            got = [(row[0], row[3] == conn.sip, row[10]) for row in rows if row[10]]
+            got = [(row[0], (row[3], row[4]) != (conn.cip, conn.cport), row[10]) for row in rows if row[10]]
             if got != [(t, bool(d), b) for t, d, b in q["expect"]]:
                 fails.append(("truth", f"quic-datagram-mismatch suite {q['features']['suite']:04X}: {len(got)} exported, {len(q['expect'])} sent"))
     blob["conns"] = [(k, proto, cip.hex(), cport, sip.hex()) for k, proto, cip, cport, sip in conn_ids(mx)]
